@@ -67,7 +67,7 @@ func runC14Model(tier string, seed uint64, idx int) core.Result {
 	nk := 4 + rng.IntN(7)
 	var keys []string
 	for i := 0; i < nk; i++ {
-		keys = append(keys, []string{"e", "e/a", "e/b", "f", "e/a/x", "g%2F", "e0", "h/1", "h/2", "h"}[i])
+		keys = append(keys, []string{"e", "e/a b", "e/b", "f", "e/a/x", "g%2F", "e0+1", "h/1?x=#", "h/2", "é/ü"}[i])
 	}
 	steps := tierN(tier, 60, 120)
 	owner := func(k string) *int64 {
@@ -323,6 +323,9 @@ func runC14Cleanup(tier string, seed uint64, idx int) core.Result {
 	var aKeys []string
 	for i := 0; i < nA; i++ {
 		k := fmt.Sprintf("a/%d", i)
+		if i%2 == 1 {
+			k = []string{"a/with space", "a/pl+us", "a/per%cent"}[rng.IntN(3)] + fmt.Sprint(i)
+		}
 		aKeys = append(aKeys, k)
 		if !put(k, &a) {
 			return r.Done()
@@ -545,6 +548,7 @@ type sessPlan struct {
 	beats     []time.Duration // offsets (from creation) at which a heartbeat is sent
 	done      []beat          // creation, acknowledged heartbeats and leader restarts: each (re)arms the timer somewhere in [sent, acked]
 	created   time.Time
+	timeout   time.Duration
 	goneAt    time.Time
 	gone      bool
 	keptAlive bool
@@ -575,8 +579,15 @@ func runC14Expiry(tier string, seed uint64, idx int) core.Result {
 		return r.Done()
 	}
 	defer l.Close()
-	const timeout = 2 * time.Second
+	// most sessions use the minimum timeout; the older ones (created first) may use a longer one, so that sessions
+	// re-armed by a new leader must each get their own
 	n := 3 + rng.IntN(4)
+	timeoutOf := func(i int) time.Duration {
+		if i < 2 && rng.IntN(2) == 0 {
+			return 4 * time.Second
+		}
+		return 2 * time.Second
+	}
 	var mu sync.Mutex
 	var plans []*sessPlan
 	write := func(req *proto.WriteRequest) (*proto.WriteResponse, error) { return l.Write(req) }
@@ -586,12 +597,13 @@ func runC14Expiry(tier string, seed uint64, idx int) core.Result {
 	}
 	for i := 0; i < n; i++ {
 		t0 := time.Now()
+		timeout := timeoutOf(i)
 		resp, err := l.LC.CreateSession(&proto.CreateSessionRequest{Shard: 0, SessionTimeoutMs: uint32(timeout.Milliseconds()), ClientIdentity: "c"})
 		if err != nil {
 			r.Violate("C14/create-session-error", scrub(err.Error()), nil)
 			return r.Done()
 		}
-		sp := &sessPlan{id: resp.SessionId, key: fmt.Sprintf("eph/%d", i), created: time.Now()}
+		sp := &sessPlan{id: resp.SessionId, key: fmt.Sprintf("eph/%d", i), created: time.Now(), timeout: timeout}
 		sp.done = []beat{{sent: t0, acked: sp.created}}
 		switch rng.IntN(3) {
 		case 0: // silent
@@ -638,7 +650,7 @@ func runC14Expiry(tier string, seed uint64, idx int) core.Result {
 				if err == nil {
 					mu.Lock()
 					sp.done = append(sp.done, beat{sent: sent, acked: time.Now()})
-					if sent.Sub(sp.created) > timeout*3/2 {
+					if sent.Sub(sp.created) > sp.timeout*3/2 {
 						sp.keptAlive = true
 					}
 					mu.Unlock()
@@ -648,7 +660,7 @@ func runC14Expiry(tier string, seed uint64, idx int) core.Result {
 		}(sp)
 	}
 	// observer
-	deadline := start.Add(9 * time.Second)
+	deadline := start.Add(11 * time.Second)
 	for time.Now().Before(deadline) && r.Violations() == 0 {
 		if restartAt >= 0 && !restarted && time.Since(start) >= restartAt {
 			lcMu.Lock()
@@ -702,6 +714,7 @@ func runC14Expiry(tier string, seed uint64, idx int) core.Result {
 				// (re)arming have passed by then?
 				now := time.Now()
 				mu.Lock()
+				timeout := sp.timeout
 				possible := sp.mayHaveExpired(now, timeout)
 				last := sp.done[len(sp.done)-1]
 				nb := len(sp.done)
